@@ -25,7 +25,8 @@ var wireReserved = []string{"", "_uuid", "uuid", "named-uuid", "set", "map",
 	"unlimited", "integer", "real", "boolean", "string", "00000000-0000-0000-0000-000000000000",
 	"type", "enum", "minReal", "maxReal", "minInteger", "maxInteger", "minLength", "maxLength", "refTable", "refType",
 	"key", "value", "min", "max", "ephemeral", "mutable",
-	"op", "table", "row", "rows", "columns", "mutations", "timeout", "where", "until", "durable", "comment", "lock", "uuid-name", "select"}
+	"op", "table", "row", "rows", "columns", "mutations", "timeout", "where", "until", "durable", "comment", "lock", "uuid-name", "select",
+	"new", "old", "initial", "modify", "count", "error", "details"} // 57..63: coq/Wire/Messages.v
 
 var wireFunctions = wireReserved[6:14]
 var wireMutators = wireReserved[14:21]
@@ -76,6 +77,22 @@ func gvalTerm(s *val.Syms, x interface{}) string {
 			return fmt.Sprintf("GNum (%d)%%Z 1%%positive", v)
 		}
 		return fmt.Sprintf("GNum %d%%Z 1%%positive", v)
+	case int64:
+		if v < 0 {
+			return fmt.Sprintf("GNum (%d)%%Z 1%%positive", v)
+		}
+		return fmt.Sprintf("GNum %d%%Z 1%%positive", v)
+	case json.Number:
+		// a number read with UseNumber: the exact fraction its digits denote
+		r, ok := new(big.Rat).SetString(string(v))
+		if !ok {
+			return "GNull"
+		}
+		n := r.Num().String()
+		if r.Sign() < 0 {
+			n = "(" + n + ")"
+		}
+		return fmt.Sprintf("GNum %s%%Z %s%%positive", n, r.Denom().String())
 	case string:
 		return fmt.Sprintf("GStr %d%%N", s.ID(v))
 	case []interface{}:
@@ -307,6 +324,20 @@ func (w *wgen) baseJSON(forceObj bool) interface{} {
 	switch t {
 	case "integer":
 		pair("minInteger", "maxInteger", -2, 1)
+		// bounds no float64 holds exactly: neighbours of 2^53 and the ends of int64
+		if w.g.Chance(0.3) {
+			big := []int64{9007199254740993, 9007199254740995, 9223372036854775807, 4611686018427387905, 9007199254740992}
+			sml := []int64{-9007199254740993, -9223372036854775808, -9223372036854775807, -4611686018427387905, 0}
+			switch w.g.Intn(3) {
+			case 0:
+				o["maxInteger"] = big[w.g.Intn(len(big))]
+			case 1:
+				o["minInteger"] = sml[w.g.Intn(len(sml))]
+				delete(o, "maxInteger")
+			default:
+				o["minInteger"], o["maxInteger"] = sml[w.g.Intn(len(sml))], big[w.g.Intn(len(big))]
+			}
+		}
 	case "real":
 		pair("minReal", "maxReal", -1.5, 0.25)
 	case "string":
